@@ -51,7 +51,7 @@ def run_one(spec, tier, extra):
             if src.count(e["old"]) != 1:
                 return name, "PATCH-FAILED", f"{e['file']}: 'old' occurs {src.count(e['old'])} times"
             open(fp, "w").write(src.replace(e["old"], e["new"]))
-        env = dict(os.environ, PYTHONPATH=os.path.join(wt, "src"), VERIF_NO_SHRINK="1",
+        env = dict(os.environ, PYTHONPATH=os.path.join(wt, "src"), VERIF_NO_SHRINK="1", VERIF_QUICK_CAP=os.environ.get("VERIF_QUICK_CAP", "1800"),
                    VERIF_REPLAY_SUBDIR=os.path.join(tmp, "replays"))
         cmd = [os.path.join(ROOT, "check"), prop, "--tier", tier, "--no-evidence"] + extra
         p = subprocess.run(cmd, env=env, capture_output=True, text=True)
@@ -60,6 +60,8 @@ def run_one(spec, tier, extra):
         if "deepali_root" in out:
             pass
         status = {0: "MISSED", 1: "CAUGHT", 2: "HARNESS-ERROR"}.get(p.returncode, f"EXIT{p.returncode}")
+        if p.returncode == 0 and "INCONCLUSIVE" in out:
+            status = "INCONCLUSIVE"
         return name, status, "; ".join(k[:160] for k in kinds[:3]) if kinds else out[-300:]
     finally:
         subprocess.run(["git", "-C", "/repo", "worktree", "remove", "--force", os.path.join(tmp, "wt")], capture_output=True)
